@@ -1,4 +1,4 @@
-HOOK_COMMITS = ["ff0d111", "d7fcc9b", "06a45ce", "e439313", "190fabf", "bee1fc4", "d03a636", "60a3510"]
+HOOK_COMMITS = ["ff0d111", "d7fcc9b", "06a45ce", "e439313", "190fabf", "bee1fc4", "d03a636", "60a3510", "6cf9a56"]
 
 # reasons for properties that are not claimed
 NOT_APPLICABLE = {}
